@@ -58,6 +58,11 @@ type Scenario struct {
 	Pollers   int          `json:"pollers,omitempty"`
 	Perturb   bool         `json:"perturb,omitempty"`
 	NoHook    bool         `json:"no_hook,omitempty"`
+	// DwellMs: real time during which the lane is left alone in a quiescent state - once idle (after
+	// the warm-up, before anything is pinned) and once loaded (workers pinned, producers done) - before
+	// the usual judgements are made. Nothing may change in a lane at rest, however long it rests;
+	// the time is exposure only, the verdicts are the structural ones.
+	DwellMs int `json:"dwell_ms,omitempty"`
 	// CtxKind "own": the lane gets a context type of the harness' own (its own Done channel, no
 	// standard-library cancelCtx underneath) - a context whose cancellation the lane can only learn
 	// from Done()/Err() themselves. "cause": WithCancelCause / an ancestor with WithTimeoutCause.
